@@ -5,6 +5,7 @@ package main
 import (
 	"fmt"
 	"os"
+	"regexp"
 	"sort"
 	"strings"
 
@@ -14,6 +15,7 @@ import (
 func init() {
 	registry["C01"] = func(c *Ctx) { runSweep(c, "C01") }
 	registry["C06"] = func(c *Ctx) { runSweep(c, "C06") }
+	registry["C12sweep"] = func(c *Ctx) { runSweep(c, "C12") }
 }
 
 // pool of values of every built-in type, with boundary members
@@ -30,6 +32,8 @@ var sweepPool = []string{
 	"(1.bear:5.bear)", "(\"a\".bear:\"c\")", "[[1, 2].bear, [3].bear]", "[{a: 1}.bear, {a: 2}]", "[1, 2, 3, 4, 5, 6, 7]",
 	// non-finite and extreme floats (they cannot be written as literals)
 	"\"NaN\".F", "\"Inf\".F", "\"-Inf\".F", "((-1.0) ** 0.5)", "1.0e300", "1.0e-300", "(0.0 * -1.0)", "9.3e18", "%{[1]: 1}", "%{[2]: 1}", "%{[1]: 1, 2: 3}", "%{{a: 1}: 2}",
+	// texts that decode to booleans
+	"\"true\"", "\"[true, false, [true]]\"", "\"{\\\"a\\\": false, \\\"b\\\": true}\"",
 	// ranges with omitted bounds
 	"(:3)", "(:2:-1)", "(2:)", "(::2)", "(nil:3:1)", "(\"a\":)",
 }
@@ -216,6 +220,8 @@ func runSweep(c *Ctx, mode string) {
 	}
 	sizeProps := map[string]bool{"*": true, "times": true, "**": true, "ljust": true, "rjust": true, "center": true}
 	forced := false // inside a group of calls that must run in the same process
+	truthySeen := map[string]int{}
+	light := mode == "C12" // the truthiness sweep only needs the values the built-ins return
 	call := func(src string, tag string) {
 		if !forced && !c.Mine() {
 			return
@@ -259,7 +265,13 @@ func runSweep(c *Ctx, mode string) {
 				}
 			}
 		}
+		if rec.Oracle != "" {
+			rec.Oracle += " [" + expandPool(src, sweepPool) + "]"
+		}
 		c.Em.Emit(rec)
+		if mode == "C12" && o.Kind == "val" {
+			truthyCheck(c, env, expandPool(src, sweepPool), o.Obj, truthySeen)
+		}
 		if mode == "C01" && o.Kind == "val" {
 			slot := fmt.Sprintf("r%d", (nres-1)%64)
 			// type-directed consumers always run; the rest are sampled at the quick tier
@@ -366,6 +378,9 @@ func runSweep(c *Ctx, mode string) {
 				if quick && c.Rng.Intn(6) != 0 {
 					continue
 				}
+				if light && quick && c.Rng.Intn(2) != 0 {
+					continue
+				}
 				call(fmt.Sprintf("%s(p%d)", expr, a), "arity1")
 				for _, b := range argIdx {
 					if c.Rng.Intn(map[bool]int{true: 400, false: 40}[quick]) != 0 {
@@ -374,7 +389,7 @@ func runSweep(c *Ctx, mode string) {
 					call(fmt.Sprintf("%s(p%d, p%d)", expr, a, b), "arity2")
 				}
 			}
-			if !sizeProps[name] {
+			if !sizeProps[name] && !light {
 				for _, a := range extremeIdx {
 					if quick && c.Rng.Intn(3) != 0 {
 						continue
@@ -388,6 +403,9 @@ func runSweep(c *Ctx, mode string) {
 			if c.Rng.Intn(4) == 0 {
 				call(fmt.Sprintf("%s(private?: true, sep: p%d, base: p%d)", expr, argIdx[c.Rng.Intn(len(argIdx))], argIdx[c.Rng.Intn(len(argIdx))]), "kwargs")
 			}
+		}
+		if light {
+			continue
 		}
 		// indexing, chains and operators with every pool member
 		for _, a := range argIdx {
@@ -407,4 +425,93 @@ func runSweep(c *Ctx, mode string) {
 			call(fmt.Sprintf("p%d[%s:%s:%s]", i, a, b, s), "slice")
 		}
 	}
+}
+
+// truthyCheck (no model involved): a value returned by a built-in, and the booleans inside a returned container, are
+// used as the condition of every conditional construct; all of them follow what the value's own `B` yields.
+func truthyCheck(c *Ctx, env *object.Env, src string, res object.PanObject, seen map[string]int) {
+	cands := []object.PanObject{}
+	var add func(o object.PanObject, depth int)
+	add = func(o object.PanObject, depth int) {
+		switch v := o.(type) {
+		case *object.PanBool:
+			cands = append(cands, o)
+		case *object.PanArr:
+			if depth < 3 {
+				for i, e := range v.Elems {
+					if i < 6 {
+						add(e, depth+1)
+					}
+				}
+			}
+		case *object.PanObj:
+			if depth < 3 && v.Pairs != nil && len(*v.Pairs) < 8 {
+				for _, p := range *v.Pairs {
+					add(p.Value, depth+1)
+				}
+			}
+		case *object.PanMap:
+			if depth < 3 {
+				for _, p := range *v.Pairs {
+					add(p.Value, depth+1)
+				}
+			}
+		default:
+			if depth == 0 && c.Rng.Intn(60) == 0 {
+				cands = append(cands, o)
+			}
+		}
+	}
+	add(res, 0)
+	for _, cand := range cands {
+		name := src
+		if i := strings.Index(src, "."); i >= 0 {
+			name = src[i:]
+			if j := strings.Index(name, "("); j >= 0 {
+				name = name[:j]
+			}
+		}
+		_, isBool := cand.(*object.PanBool)
+		key := fmt.Sprintf("%s|%T|%s", name, cand, map[bool]string{true: safeInspect(cand), false: ""}[isBool])
+		if seen[key] >= 2 {
+			continue
+		}
+		seen[key]++
+		env.Set(object.GetSymHash("cand"), cand)
+		b := c.It.RunIn(env, "cand.B", "", 60000)
+		rec := Rec{Src: src + " ; conditional constructs on " + safeInspect(cand), Impl: b.Kind, NT: true, Tags: []string{"truthy-sweep", fmt.Sprintf("cand-%T", cand)}}
+		if b.Kind != "val" || (b.Inspect != "true" && b.Inspect != "false") {
+			rec.Skip = "B-does-not-yield-a-boolean"
+			c.Em.Emit(rec)
+			continue
+		}
+		bt := b.Inspect == "true"
+		probe := "[(1 if cand else 2), (1 if cand), !cand, (cand && 5), {|| return 3 if cand; 4}(), 0.try.{raise Err.new(\"g\") if cand; 8}.or(9)]"
+		want := "[2, nil, true, " + safeInspect(cand) + ", 4, 8]"
+		if bt {
+			want = "[1, 1, false, 5, 3, 9]"
+		}
+		o := c.It.RunIn(env, probe, "", 60000)
+		rec.Impl = o.Kind + " " + o.Inspect
+		if o.Kind == "fuel" {
+			rec.Skip = "fuel"
+		} else if o.Kind != "val" || o.Inspect != want {
+			rec.Oracle = fmt.Sprintf("value %s returned by `%s`: its B yields %v but the conditional constructs give %s %s (the one rule gives %s)", safeInspect(cand), src, bt, o.Kind, o.Inspect+o.ErrMsg, want)
+		}
+		c.Em.Emit(rec)
+	}
+}
+
+var poolRef = regexp.MustCompile(`\bp(\d+)\b`)
+
+// expandPool replaces the pool names p<i> in a sweep call by the source text of the pool member
+func expandPool(src string, pool []string) string {
+	return poolRef.ReplaceAllStringFunc(src, func(m string) string {
+		var i int
+		fmt.Sscanf(m[1:], "%d", &i)
+		if i < len(pool) {
+			return pool[i]
+		}
+		return m
+	})
 }
